@@ -64,6 +64,8 @@ DEFAULT_PROFILE = {
     "multi_value": 0.3,  # add a second value to an existing extra attribute
     "fmt": "json",
     "mention": True,
+    "p_roundtrip_derived": 0.0,  # round trips of documents that were themselves derived / read
+    "p_subfactory": 0.0,  # revision()/quotation()/primary_source()/collection() factories
     "steer_f11b": False,  # add_bundle identifiers only through the document's namespace objects
     "mutate_derived": False,  # derived documents are targets of ordinary operations too
 }
@@ -425,6 +427,10 @@ class Gen(object):
                     via = "factory"
             else:
                 via = "factory"
+        if via == "factory" and kind == "derivation" and rng.random() < self.p.get("p_subfactory", 0.0):
+            via = rng.choice(["revision", "quotation", "primary_source"])
+        if via == "factory" and kind == "entity" and rng.random() < self.p.get("p_subfactory", 0.0):
+            via = "collection"
         if via == "factory" and not pools.FACTORIES[kind][2]:
             # specialization/alternate/mention/membership factories take no id/attributes
             if idspec is not None or extra:
@@ -668,6 +674,9 @@ class Gen(object):
     def g_roundtrip(self):
         rng = self.rng
         dh = rng.choice(self.docs)
+        if self.derived_docs and rng.random() < self.p.get("p_roundtrip_derived", 0.0):
+            # a second generation: documents that were themselves read, unified, flattened ...
+            dh = rng.choice(self.derived_docs)
         h = self.fresh("R")
         self._add_derived(h)
         fmt = self.p["fmt"]
